@@ -20,7 +20,7 @@ func init() {
 			"(R1) every comparison of a 16-bit code unit with a constant in types.decodeUTF16String is normalised to a half-line (v <= c, v < c → v <= c-1, v >= c, v > c → v >= c+1; negated branch edges are the same cut) and its cut must be one of the partition's cuts: upper ends D7FF, DBFF, DFFF, FFFF; lower ends 0000, D800, DC00, E000. An off-by-one constant or operator (v > 0xE000) misclassifies a valid character as a surrogate and makes a well-formed string fail to decode. " +
 			"(R2) the encoder side hands the text to the standard library: EncodeUTF16String calls unicode/utf16.Encode and writes the byte order mark FE FF; EscapedUTF16String rejects invalid UTF-8 before encoding. " +
 			"(R3) the decoder cuts the byte order mark off once, outside any loop (U+FEFF as first character is FE FF as well); (R1 also covers the encoder: a hand-written BMP test must cut between FFFF and 10000). (R4) the literal-string unescaper every stored text string passes through ends the escape state whenever an escape sequence has produced its byte (a UTF-16 code unit whose low byte is 5C is written as 5C 5C; if the flag survives, the next byte is taken as an escape letter); (R5) functions that copy a string element by element under a condition drop C0 control bytes only. (R6) in encrypted documents every text string passes decryptAESBytes: the pad-length cut is the writer's range 1..16; (R7) the low-level escaper types.Escape receives the result of EncodeUTF16String, except in listed callers that do not write text strings (content-stream text for a font's encoding, JavaScript of date fields, ciphertext) — a new caller that hands it single-byte text writes a string the reader decodes with another encoding. NOT decided: the round trip itself over all scalar values (surrogate arithmetic is the standard library's), which writer is used for which text entry, PDFDocEncoding/UTF-8 guessing for strings without a byte order mark.",
-		Rules:       []string{"C13.R1 TABLE: code-unit comparisons of the UTF-16 decoder cut exactly at the Unicode partition", "C13.R2 shape: the encoder delegates to unicode/utf16 and writes the byte order mark", "C13.R3 shape: the byte order mark is stripped exactly once", "C13.R4 MPT (go/cfg): in Unescape a byte written inside an escape sequence is followed by an assignment of the escape flag before the next byte", "C13.R5 TABLE: text filters decide per element by a comparison with a constant <= 0x20 only", "C13.R6 TABLE (the cut C22.R3 also decides): AES padding removal cuts exactly after 16", "C13.R7 WMC: types.Escape is handed the UTF-16 writer's result, or is called from a listed function that writes no text string"},
+		Rules:       []string{"C13.R1 TABLE: code-unit comparisons of the UTF-16 decoder cut exactly at the Unicode partition", "C13.R2 shape: the encoder delegates to unicode/utf16 and writes the byte order mark", "C13.R3 shape: the byte order mark is stripped exactly once", "C13.R4 MPT (go/cfg): in Unescape a byte written inside an escape sequence is followed by an assignment of the escape flag before the next byte", "C13.R5 TABLE: text filters decide per element by a comparison with a constant <= 0x20 only", "C13.R6 TABLE (the cut C22.R3 also decides): AES padding removal cuts exactly after 16", "C13.R8 cut: the surrogate-pair bounds test of the UTF-16 decoder errors exactly when the second code unit is missing", "C13.R7 WMC: types.Escape is handed the UTF-16 writer's result, or is called from a listed function that writes no text string"},
 		Assumptions: []string{"unicode/utf16.Encode / Decode are correct"},
 		Level:       "other",
 		Technique:   "constant/operator table agreement on SSA comparisons of 16-bit values",
@@ -42,6 +42,8 @@ func runC13(c *Ctx) {
 	checkAESPaddingCut(c, "C13.R6")
 	r.MinInst["C13.R7"] = 3
 	checkEscapeCallers(c)
+	r.MinInst["C13.R8"] = 1
+	checkSurrogateBounds(c, "C13.R8")
 	fid := "pkg/pdfcpu/types.decodeUTF16String"
 	fn := p.Func(fid)
 	if fn == nil {
@@ -455,5 +457,67 @@ func checkEscapeCallers(c *Ctx) {
 	}
 	if n == 0 {
 		r.Bad("C13.R7", FuncID(esc), "anchor", "", "UNRESOLVED-ANCHOR: types.Escape has no callers")
+	}
+}
+
+// ---------------- C13.R8 = C35.R5 (round 4 seed C35-A): the surrogate bounds test of the UTF-16 decoder ----------------
+
+// checkSurrogateBounds: a high surrogate at byte index i needs the code unit at i+2, i+3. The decoder's length is even
+// (checked by IsUTF16BE) and i is even, so "the low surrogate is missing" is i+2 >= len(b), equivalently i+3 >= len(b).
+// Every comparison of (loop index + constant) with len of the decoded slice in decodeUTF16String is normalised to
+// index - len >= c; c must be -2 or -3. A larger margin (i+4 >= len) rejects every text whose LAST character is
+// outside the BMP — "decoding a well-formed UTF-16BE text string never fails".
+func checkSurrogateBounds(c *Ctx, rule string) {
+	p, r := c.P, c.R
+	const fid = "pkg/pdfcpu/types.decodeUTF16String"
+	fn := p.Func(fid)
+	if fn == nil {
+		r.Bad(rule, fid, "anchor", "", "UNRESOLVED-ANCHOR")
+		return
+	}
+	n := 0
+	eachInstr(fn, func(b *ssa.BasicBlock, _ int, i ssa.Instruction) {
+		bo, ok := i.(*ssa.BinOp)
+		if !ok {
+			return
+		}
+		op := bo.Op
+		L, R := bo.X, bo.Y
+		switch op {
+		case token.LSS, token.LEQ:
+			L, R = R, L
+			op = mirrorOp(op)
+		case token.GTR, token.GEQ:
+		default:
+			return
+		}
+		// L >= R (or >): index side must be phi + const, other side len(...)
+		if !isLenCall(R) {
+			return
+		}
+		la := linOf(c, L, 0)
+		if len(la) != 1 || len(la[0].coef) != 1 || la[0].k == 0 {
+			return // the loop condition itself (i < len) has no constant
+		}
+		for v, cf := range la[0].coef {
+			if _, isPhi := v.(*ssa.Phi); !isPhi || cf != 1 {
+				return
+			}
+		}
+		// index + k >= len  <=>  index - len >= -k ; strict: index + k > len <=> index - len >= -k + 1
+		cst := -la[0].k
+		if op == token.GTR {
+			cst++
+		}
+		n++
+		construct := fmt.Sprintf("surrogate bounds test#%d", n)
+		if cst == -2 || cst == -3 {
+			r.OK(rule, fid, construct, p.Pos(bo.Pos()), fmt.Sprintf("errors iff index - len >= %d: exactly when the second code unit is missing", cst), true)
+		} else {
+			r.Bad(rule, fid, construct, p.Pos(bo.Pos()), fmt.Sprintf("the decoder reports a corrupt length iff index - len >= %d; the pair at index i needs bytes up to i+3, i.e. the cut is -2 (or -3): with this margin a well-formed text whose last character lies outside the BMP (an emoji at the end) fails to decode — or a truncated pair is read past the end", cst))
+		}
+	})
+	if n == 0 {
+		r.Bad(rule, fid, "surrogate bounds test", p.Pos(fn.Pos()), "UNDECIDED: no comparison of index + constant with the length found before the second code unit is read")
 	}
 }
